@@ -16,7 +16,7 @@ EXTENDS Integers, Sequences, FiniteSets, TLC, Json, CSV, IOUtils
 
 CONSTANTS StackSize, FrameSize
 
-Kinds == {"div0", "mod0", "shiftneg", "index", "slice", "notcallable", "nargs", "gopanic", "gopanic-nil", "throw",
+Kinds == {"div0", "mod0", "shiftneg", "index", "slice", "notcallable", "nargs", "gopanic", "gopanic-nil", "gopanic-nilerr", "gopanic-nilrte", "gopanic-ugoerr", "gopanic-struct", "throw",
           "framelimit", "stacklimit", "wideexpr", "framelimit-catch", "notiterable", "setindex", "setselector", "spread", "builtin-type"}
 Ctxs  == {"plain", "try-catch", "try-finally", "catch-rethrow", "callback", "callback-try",
           \* the failure strikes on a child VM (pooled or not) that has its own handler, or on a child VM the
